@@ -78,7 +78,12 @@ def reload_scripts(rng, n):
         svcs = [("chal.svc", lp), ("keep.svc", "dronecheck")]
         after = [svcs[1]]
         cfg = proto.Config(svcs, timeout=rng.choice([None, 3600]))
-        kind = ["more-then-removed", "leaver-then-removed", "more-then-removed", "owed-answer", "two-waiters", "leaver-then-removed", "retry-then-removed"][k_ % 7]
+        kind = ["more-then-removed", "leaver-then-removed", "more-then-removed", "owed-answer", "two-waiters", "leaver-then-removed", "retry-then-removed",
+                "more-then-replaced"][k_ % 8]
+        if kind == "more-then-replaced":
+            # the challenger is removed and ANOTHER service is added by the same reload (it may take the challenger's place in the table)
+            after = [svcs[1], ("new.svc", rng.choice(["login", "login-ipr", "dronecheck"]))]
+            kind = "more-then-removed"
         cids = [5, 9] if kind in ("two-waiters", "leaver-then-removed", "retry-then-removed") else [5]
         ev = []
         ser = {}
